@@ -91,7 +91,8 @@ CLAIMS = {
   "rejecting callback's code or 500, HTTPUpgrader accepts only GET-length methods, HTTP/1.x (x >= 1) and a non-empty "
   "Host (one defect found and fixed: HTTP/2 was accepted). (2) The pure text helpers, for all inputs: bsplit3, "
   "httpParseRequestLine/Version/HeaderLine, btrim, canonicalizeHeaderKey (= ASCII CanonicalMIMEHeaderKey), asciiToInt; "
-  "btsSelectProtocol returns a copy.",
+  "btsSelectProtocol returns a copy; writeAccept writes exactly the accept value computed from the key (SHA-1/base64 "
+  "uninterpreted).",
   "NOT proved: what the upgraders do with header *contents* (which header lines were seen, the key being 24 bytes, "
   "the accept value written, subprotocol/extension selection): the response writers, readLine, hijack, httpGetHeader, "
   "token scanning and every user callback are trusted/abstracted contracts (listed in evidence); map lookups yield "
@@ -103,8 +104,9 @@ CLAIMS = {
   "with status 101 only if its status token is literally '101' (two defects found and fixed), version shape, header "
   "line splitting/trimming/canonicalisation, hostport default ports, checkAcceptFromNonce accepts exactly the 28 "
   "bytes computed from the key (SHA-1/base64 uninterpreted).",
-  "NOT proved: the request bytes written (httpWriteUpgradeRequest is a trusted frame-only contract), which response "
-  "headers were seen and their values, extension matching, Dialer.Dial (network, TLS, timeouts). readLine, initNonce "
+  "Of the request only its first line and the Host value are proved (GET, the URL's request-URI, HTTP/1.1, over the "
+  "write history of the buffered writer); NOT proved: the other request headers, which response headers were seen "
+  "and their values, extension matching, Dialer.Dial (network, TLS, timeouts). readLine, initNonce "
   "and the callbacks are trusted/abstracted; hostport assumes a host with at most one ']'."),
  "C12": ("proof",
   "Proof of the two glue components for all inputs: the tail-withholding proxy cbuf (bytes that reached the "
